@@ -5,6 +5,7 @@ def step (line : String) : String :=
   match line.trimAscii.toString.splitOn " " with
   | "c20" :: args => Arl.run args
   | "c17" :: args => Interp.run args
+  | "c16" :: args => Val2idx.run args
   | _ => "err bad-stream"
 
 partial def loop (h : IO.FS.Stream) : IO Unit := do
